@@ -24,12 +24,12 @@ EXPLANATION = (
 # (function qualname, exception class) -> (category, reason)
 RAISE_TABLE = {
     ("pygradflow.solver.Solver.solve", "Exception"): ("deliberate", "'Failed to evaluate initial iterate' / 'Inverse step size ... exceeded maximum' (message-carrying failures named in the statement)"),
-    ("pygradflow.newton.GlobalizedNewtonMethod.step", "Exception"): ("deliberate", "'Line search failed to converge'"),
+    ("pygradflow.newton.GlobalizedNewtonMethod.*", "Exception"): ("deliberate", "'Line search failed to converge'"),
     ("pygradflow.deriv_check.deriv_check", "pygradflow.deriv_check.DerivError"): ("deliberate", "derivative check failed"),
     ("pygradflow.scale.create_scaling", "ValueError"): ("configuration", "inconsistent scaling options; raised from Solver.__init__"),
     ("pygradflow.scale.scale_symmetric", "Exception"): ("configuration", "'Equilibration failed to converge'; raised from Solver.__init__ with ScalingType.KKT"),
     ("pygradflow.penalty.penalty_strategy", "ValueError"): ("configuration", "unknown penalty update (unreachable for enum values)"),
-    ("pygradflow.step.solver.symmetric_step_solver.SymmetricStepSolver._solve_deriv", "Exception"): ("configuration", "inertia correction requested with a linear solver that cannot report inertia (explicitly unsupported option pair)"),
+    ("pygradflow.step.solver.symmetric_step_solver.SymmetricStepSolver.*", "Exception"): ("configuration", "inertia correction requested with a linear solver that cannot report inertia (explicitly unsupported option pair)"),
     ("pygradflow.linear_solver.ma57_solver.MA57Solver._try_fact", "Exception"): ("optional-backend", "MA57 (pyomo/HSL) is not installed in this image"),
     ("pygradflow.linear_solver.ma57_solver.MA57Solver._handle_fact_status", "Exception"): ("optional-backend", "MA57 (pyomo/HSL) is not installed in this image"),
 }
@@ -308,8 +308,25 @@ def run(prog: Program, rep, tier: str) -> None:
     for e in entries:
         for cls, origin, chain in x.escapes(e):
             n_r += 1
-            last = chain[-1]
-            fn = last.split(" in ", 1)[1].split(":", 1)[0] if " in " in last else "?"
+            # the raise is attributed to the innermost function of the pinned tree on the path to it: a raise that moved into a
+            # new helper (`_line_search`, `_check_inertia`) still belongs to the function it was extracted from
+            from ..inline import known_functions
+            kf = known_functions()
+            fn = "?"
+            seq = []   # functions from the raise outwards
+            for hop in reversed(chain):
+                body_ = hop.split(": ", 1)[1] if ": " in hop else hop
+                if body_.startswith("raise in "):
+                    seq.append(body_[len("raise in "):].split(":", 1)[0])
+                elif " -> " in body_:
+                    a_, b_ = body_.split(" -> ", 1)
+                    seq += [b_.strip(), a_.strip()]
+            for cand in seq:
+                if fn == "?":
+                    fn = cand
+                if "pygradflow." + cand in kf:
+                    fn = cand
+                    break
             fq = "pygradflow." + fn
             key = (fq, cls)
             if cls in ("pygradflow.step.step_solver_error.StepSolverError", "pygradflow.linear_solver.linear_solver.LinearSolverError"):
@@ -324,6 +341,11 @@ def run(prog: Program, rep, tier: str) -> None:
                 continue
             if key in RAISE_TABLE:
                 inv[key] = RAISE_TABLE[key]
+                continue
+            # class-level entries ("<class>.*"): the raise may sit in any method of that class
+            ck = next((k for k in RAISE_TABLE if k[0].endswith(".*") and k[1] == cls and fq.startswith(k[0][:-1])), None)
+            if ck is not None:
+                inv[key] = RAISE_TABLE[ck]
                 continue
             rep.fail("raise-inventory", fq, f"raise of {cls} in {fn}", f"VIOLATED: unclassified raise of {cls} at {origin} is reachable from {e.rsplit('.', 1)[-1]}() "
                      f"(neither one of the deliberate failures nor a listed configuration error)", origin, list(chain))
